@@ -5,10 +5,13 @@ package main
 // set to their default, fields out of order, a singular field given twice, unknown fields, an empty message - and the scripted
 // target answers with the same kind of payloads.  What the target received and what the client received must be the bytes
 // that were sent, in order.
-// input ( method requests responses ) ; impl ( received-by-target received-by-client final-code )
+// In a third of the calls the target ends with a non-OK status that carries a message (non-ASCII included) and details;
+// the client must receive that status: code, message and details (compared as the bytes of the status proto).
+// input ( method requests responses final-status ) ; impl ( received-by-target received-by-client final-status )
 
 import (
 	"context"
+	"fmt"
 	"io"
 	"net"
 	"time"
@@ -20,8 +23,10 @@ import (
 	"github.com/renbou/grpcbridge/internal/zzverif/vfake"
 	"github.com/renbou/grpcbridge/routing"
 	"google.golang.org/grpc"
+	"google.golang.org/grpc/codes"
 	"google.golang.org/grpc/credentials/insecure"
 	"google.golang.org/grpc/status"
+	"google.golang.org/protobuf/proto"
 	"google.golang.org/grpc/test/bufconn"
 )
 
@@ -75,8 +80,20 @@ func bytesPart(w *vc.Writer, r *vc.Rand) {
 			resps = append(resps, p)
 			conn.Script = append(conn.Script, vfake.RespItem{Kind: vfake.KMsg, Payload: p, NeedReqs: nreq, NeedHalfClose: true})
 		}
-		conn.Script = append(conn.Script, vfake.RespItem{Kind: vfake.KEOF, NeedReqs: nreq, NeedHalfClose: true})
-		in := vc.L{name, bytesVal(reqs), bytesVal(resps)}
+		var wantStatus []byte
+		if rr.Intn(3) == 0 {
+			st := status.New(codes.Code(1+rr.Intn(16)), rr.Pick([]string{"target says no", "", "ünïcode ✓ %d", "line\nbreak"}))
+			for j := 0; j < rr.Intn(3); j++ {
+				if st2, err := st.WithDetails(&testpb.FlowMessage{Message: fmt.Sprint("detail ", j)}); err == nil {
+					st = st2
+				}
+			}
+			wantStatus, _ = proto.MarshalOptions{Deterministic: true}.Marshal(st.Proto())
+			conn.Script = append(conn.Script, vfake.RespItem{Kind: vfake.KErr, Status: st, NeedReqs: nreq, NeedHalfClose: true})
+		} else {
+			conn.Script = append(conn.Script, vfake.RespItem{Kind: vfake.KEOF, NeedReqs: nreq, NeedHalfClose: true})
+		}
+		in := vc.L{name, bytesVal(reqs), bytesVal(resps), append([]byte{}, wantStatus...)}
 		w.Current(in)
 
 		sr := routing.NewServiceRouter(onePool{conn}, routing.ServiceRouterOpts{})
@@ -95,7 +112,7 @@ func bytesPart(w *vc.Writer, r *vc.Rand) {
 			panic(err)
 		}
 		ctx, cancel := context.WithTimeout(context.Background(), 3*time.Second)
-		code := -1
+		gotStatus := []byte("no status")
 		var got [][]byte
 		stream, err := cc.NewStream(ctx, &grpc.StreamDesc{ClientStreams: true, ServerStreams: true},
 			"/"+string(testpb.TestServiceDesc.Services[0].Name)+"/"+name, grpc.ForceCodec(rawCodec{}))
@@ -115,9 +132,9 @@ func bytesPart(w *vc.Writer, r *vc.Rand) {
 			}
 		}
 		if err == io.EOF {
-			code = 0
+			gotStatus = []byte{}
 		} else if err != nil {
-			code = int(status.Code(err))
+			gotStatus, _ = proto.MarshalOptions{Deterministic: true}.Marshal(status.Convert(err).Proto())
 		}
 		cancel()
 		cc.Close()
@@ -126,7 +143,7 @@ func bytesPart(w *vc.Writer, r *vc.Rand) {
 		conn.Lock()
 		seen := append([][]byte{}, conn.SentBytes...)
 		conn.Unlock()
-		w.Case(in, vc.L{bytesVal(seen), bytesVal(got), code}, nreq+nresp > 1)
+		w.Case(in, vc.L{bytesVal(seen), bytesVal(got), gotStatus}, nreq+nresp > 1)
 	}
 }
 
